@@ -135,6 +135,12 @@ type Control struct {
 	// data, removals and renames go through; "rename": renames only)
 	ErrFrom, ErrLen int
 	ErrClass        string
+	// ErrMatch, when set, names the failing mutation by what it is instead of by its number: the
+	// ErrOcc-th mutation whose "kind detail" matches (for actions whose calls come from several
+	// goroutines, where only the order within one kind of call is a function of the plan)
+	ErrMatch *regexp.Regexp
+	ErrOcc   int
+	errSeen  int
 	ReadOnly bool
 	RoBreach []string
 	Perm     *Rand
@@ -239,6 +245,14 @@ func (c *Control) gate2(kind string, mut bool, detail, traceDetail string) (cras
 		c.logf("%s %s(%s) -> CRASH", c.Name, kind, detail)
 		return true, ErrFrozen
 	}
+	if c.ErrMatch != nil && c.ErrMatch.MatchString(kind+" "+detail) {
+		c.errSeen++
+		if c.errSeen == c.ErrOcc {
+			c.ErrFired++
+			c.logf("%s %s(%s) -> injected error", c.Name, kind, detail)
+			return false, ErrInjected
+		}
+	}
 	if c.ErrAtMut[idx] || (c.ErrLen > 0 && idx >= c.ErrFrom && idx < c.ErrFrom+c.ErrLen && errClassHas(c.ErrClass, kind)) {
 		c.ErrFired++
 		c.logf("%s %s(%s) -> injected error", c.Name, kind, detail)
@@ -278,6 +292,13 @@ func (c *Control) ArmErr(class string, k, n int) {
 // ReadCount tells how many read calls were made so far.
 func (c *Control) ReadCount() int { c.mu.Lock(); defer c.mu.Unlock(); return c.Reads }
 
+// ArmErrMatch makes the occ-th mutation from now on whose "kind detail" matches re fail.
+func (c *Control) ArmErrMatch(re string, occ int) {
+	c.mu.Lock()
+	c.ErrMatch, c.ErrOcc, c.errSeen, c.ErrFired = regexp.MustCompile(re), occ, 0, 0
+	c.mu.Unlock()
+}
+
 // ErrFiredCount tells how many calls failed since ArmErr.
 func (c *Control) ErrFiredCount() int { c.mu.Lock(); defer c.mu.Unlock(); return c.ErrFired }
 
@@ -286,6 +307,7 @@ func (c *Control) DisarmErr() int {
 	c.mu.Lock()
 	defer c.mu.Unlock()
 	c.ErrLen = 0
+	c.ErrMatch = nil
 	n := c.ErrFired
 	c.ErrFired = 0
 	return n
@@ -431,6 +453,27 @@ func (s *SimRepo) RemoveRef(ref string) error {
 	return s.Inner.RemoveRef(ref)
 }
 
+// permFor gives the permutation stream of the n-th enumeration of one prefix. The source is only
+// read for its seed: git-bug enumerates the bugs and the identities from two goroutines (cache
+// build, RemoveAll), and one shared stream would hand out its draws in the order they happen to
+// arrive (and race on its state). Counters live with the source, which survives restarts.
+func permFor(src *Rand, prefix string) *Rand {
+	permMu.Lock()
+	defer permMu.Unlock()
+	if src.cnt == nil {
+		src.cnt = map[string]int{}
+	}
+	m := src.cnt
+	m[prefix]++
+	h := uint64(14695981039346656037)
+	for i := 0; i < len(prefix); i++ {
+		h = (h ^ uint64(prefix[i])) * 1099511628211
+	}
+	return NewRand(Mix(Mix(src.s, h), uint64(m[prefix])))
+}
+
+var permMu sync.Mutex
+
 func (s *SimRepo) ListRefs(refPrefix string) ([]string, error) {
 	if _, err := s.C.gate("ListRefs", false, refPrefix); err != nil {
 		return nil, err
@@ -443,7 +486,7 @@ func (s *SimRepo) ListRefs(refPrefix string) ([]string, error) {
 	// optional seeded permutation: results must not depend on enumeration order
 	sort.Strings(refs)
 	if s.C.Perm != nil && len(refs) > 1 {
-		p := s.C.Perm.Perm(len(refs))
+		p := permFor(s.C.Perm, refPrefix).Perm(len(refs))
 		out := make([]string, len(refs))
 		for i, j := range p {
 			out[i] = refs[j]
